@@ -14,23 +14,30 @@ PROPS_V = 'C13/Props.v'
 COQCHK = 'norec'   # closure rests on Reals (and Interval): full coqchk takes tens of minutes
 LEVEL = 'proof'
 TRUSTED = [
-    'hand-written Gallina model C13/Model.v of flegendre/fchebyshev/fpoly/fchebyshev_split/func_fit/TraceSet '
-    '(tied to the code by the correspondence run only; no translator)',
-    'C13/LinAlg.v Gaussian elimination is NOT trusted: solve_checked/inverse_checked re-multiply before answering',
+    'translate/c13.py (fail-closed ast extractor -> Generated/Trace.v): recurrences, order guards, xnorm / jump / grid arithmetic, '
+    'the keyword defaults, tempivar and the rejection loop of TraceSet.__init__, the function tables, the expressions of func_fit; '
+    'verified-only statements: FITS-record constructor, djs_reject called without criteria, traceset2xy / xy2traceset forwards',
+    'hand-written in C13/Model.v: list plumbing (select / scatter / combine), the meaning of the two scipy families '
+    '(legendre_rec, chebyshev_rec; tied by the closed-form theorems and by correspondence), np.linalg.solve (solve_checked: '
+    'Gauss-Jordan over Q, proved sound AND complete), djs_reject on the no-criterion path (nothing rejected, done)',
     'numpy/scipy: np.polyval(scipy.special.legendre/chebyt), np.linalg.solve, np.dot (outputs compared per case '
     'with the exact-rational model at 1e-9 / 1e-7 and with the certified checkers fit_ok / grid_ok)',
     'astropy.io.fits BinTableHDU.from_columns used by the harness to build the FITS_rec a TraceSet is read from',
-    'Coq stdlib QArith, Lqa, Reals (chebyshev_is_cos depends on the standard real-number axioms)',
+    'Coq stdlib QArith, Lqa, Reals (the three Chebyshev-cosine theorems depend on the standard real-number axioms; the '
+    'arccos forms also on Classical_Prop.classic through Ratan.acos)',
 ]
 ASSUMPTIONS = [
-    'float64 arrays, numpy float64 scalars, Python float and Python int scalars (integer or float32 numpy abscissae make '
-    'the basis functions truncate/round: the output dtype follows x.dtype; not exercised)',
-    'orders 1..12 (degrees 0..11), abscissae in [-1,1] for the basis comparison; tolerance 1e-9 absolute',
+    'abscissa storage: float64 arrays, 0-d arrays, numpy float64 / Python float / Python int scalars, integer ndarrays (i2/i4/i8), '
+    'numpy integer scalars -- all judged by the same Coq cases; float32 arrays / scalars judged at 1e-4 against exact values '
+    '(orders <= 6) and float32 / mixed-width fits at 1e-3 against the float64 run; Python lists and 2-D abscissae are refused by '
+    'the code (ValueError / TypeError) and not exercised',
+    'orders 0..12 (0, and 1 for the split basis, must raise ValueError), abscissae in [-1,1] for the basis comparison; tolerance 1e-9 absolute',
     'fitting problems are generated well conditioned (cond(alpha) < 1e5, distinct abscissae, >= as many good points as '
     'free parameters when a parameter is fixed); agreement with the exact model is required at 1e-7 relative',
     'weights are >= 0 (negative invvar is used as a weight by the code but not counted as a good point)',
-    'TraceSet rejection loop: djs_reject is called without lower/upper/maxdev, so no point is ever rejected and '
-    'every trace is one weighted fit (the mask is not fed back into the fit) -- modelled as such',
+    'TraceSet rejection loop: the translator verifies that djs_reject is called with invvar only (no lower/upper/maxdev/...), '
+    'on which path it rejects nothing; maxiter >= 0 (a negative maxiter leaves ycurfit unbound: the constructor raises); '
+    'xjumplo given without xjumphi/xjumpval raises TypeError in xnorm (not exercised)',
     "TraceSet(func='chebyshev_split') cannot be evaluated (not in TraceSet._func_map); excluded from trace-set cases",
 ]
 
@@ -146,7 +153,39 @@ def gen_basis(ctx):
             if m in (3, 7, 12):
                 calls.append(('basis-scalar', {'f': 'basis', 'func': func, 'm': m, 'xs': [0.0, 1.0, -1.0, 0.5], 'mode': 'scalar'}))
                 calls.append(('basis-scalar', {'f': 'basis', 'func': func, 'm': m, 'xs': [0.0, -1.0, 0.25], 'mode': 'npscalar'}))
+    # the order guards: orders below the minimum are refused with ValueError (model: basis_call = None)
+    for func in FUNCS:
+        for m in ([0, 1] if func == 'chebyshev_split' else [0]):
+            calls.append(('basis-guard', {'f': 'basis', 'func': func, 'm': m, 'xs': [0.5, -0.25], 'mode': 'array'}))
+            calls.append(('basis-guard', {'f': 'basis', 'func': func, 'm': m, 'xs': [0.5], 'mode': 'scalar'}))
+    # storage classes of the abscissa: integer ndarrays, numpy integer scalars, 0-d arrays (same Coq cases as float64:
+    # the integers of [-1, 1] are abscissae like any other), float32 arrays / scalars (judged at 1e-4 against the exact values)
+    for func in FUNCS:
+        for m in (2, 3, 4, 7, 12):
+            xs = [-1, 0, 1, rng.choice([-1, 0, 1])]
+            rng.shuffle(xs)
+            calls.append(('basis-intarray', {'f': 'basis', 'func': func, 'm': m, 'xs': xs, 'mode': 'array',
+                                             'xdtype': rng.choice(['i8', 'i4', 'i2'])}))
+            calls.append(('basis-npint', {'f': 'basis', 'func': func, 'm': m, 'xs': [0, 1, -1],
+                                          'mode': rng.choice(['npint64', 'npint32'])}))
+            calls.append(('basis-zerodim', {'f': 'basis', 'func': func, 'm': m, 'xs': [C.dyadic(rng, -1, 1, 10), 0.0],
+                                            'mode': 'zerodim'}))
+        for m in (2, 4, 6):
+            xs = [C.dyadic(rng, -1, 1, 10) for _ in range(4)] + [0.0, -1.0]
+            calls.append(('basis-f4array', {'f': 'basis', 'func': func, 'm': m, 'xs': xs, 'mode': 'array', 'xdtype': 'f4',
+                                            '_nocoq': True, '_f4': True}))
+            calls.append(('basis-f4scalar', {'f': 'basis', 'func': func, 'm': m, 'xs': xs[:3], 'mode': 'npfloat32',
+                                             '_nocoq': True, '_f4': True}))
     return calls
+
+
+def intx(c):
+    """storage class 'integer abscissa' (one defect class whatever the basis function)"""
+    return str(c.get('xdtype', 'd')).startswith('i') or str(c.get('mode', '')).startswith('npint')
+
+
+def sig_class(c):
+    return 'intx' if intx(c) else 'mixedwidth' if c.get('kwdtype') else c.get('func')
 
 
 def gen_fit_problem(rng, kind):
@@ -211,6 +250,8 @@ def gen_fit_problem(rng, kind):
             if not cond_ok(func, x, ww, ncfit, free, ifunc):
                 continue
         c = {'f': 'fit', 'func': func, 'x': x, 'w': w, 'ncoeff': ncoeff, 'ia': ia, 'ans': ans, 'ifunc': ifunc}
+        if rng.random() < 0.3:
+            c['fname'] = 'f' + func       # the alias names of func_fit's function_map
         if kind == 'exact':
             coef = [Fr(C.dyadic(rng, -2, 2, 4)) for _ in range(ncoeff)]
             ys = [sum(ck * bk for ck, bk in zip(coef, basis_fr(func, ncoeff, xi))) for xi in x]
@@ -259,6 +300,35 @@ def gen_fit(ctx):
         c['xdtype'] = c['ydtype'] = 'f4'
         c['_nocoq'] = True          # float32 arithmetic: judged against the float64 run of the same call
         calls.append(('fit-f4', c))
+        # mixed widths: float32 abscissae with float64 data / weights (and the reverse)
+        d = dict(c)
+        d['xdtype'], d['ydtype'], d['kwdtype'] = ('f4', 'd', 'd') if k % 2 == 0 else ('d', 'f4', 'f4')
+        calls.append(('fit-mixedwidth', d))
+    # integer-typed abscissae (pixel numbers) with float64 data: same Coq cases as float abscissae
+    for k in range(ctx.n(8, 60)):
+        for _attempt in range(400):
+            c = gen_fit_problem(rng, rng.choice(['plain', 'zeros', 'fixed', 'nowgt']))
+            n = len(c['x'])
+            c['x'] = [float(v) for v in rng.sample(range(-5, 6), n)]
+            if k % 4 == 3:
+                c['ncoeff'] = 1 if c['func'] != 'chebyshev_split' else 2
+                c['ia'] = c['ans'] = None
+            ww = [1.0] * n if c['w'] is None else c['w']
+            good = [i for i in range(n) if ww[i] > 0]
+            ncfit = min(len(good), c['ncoeff'])
+            if c['ia'] is not None and ncfit < c['ncoeff']:
+                continue
+            free = [j for j in range(ncfit) if c['ia'] is None or c['ia'][j]]
+            if len(good) < max(2, len(free) + 1):
+                continue
+            if c['func'] == 'chebyshev_split' and not (any(c['x'][i] >= 0 for i in good) and any(c['x'][i] < 0 for i in good)):
+                continue
+            if cond_ok(c['func'], c['x'], ww, ncfit, free, None, 1e5):
+                break
+        else:
+            raise RuntimeError('could not generate an integer-abscissa fit problem')
+        c['xdtype'] = 'i8' if k % 2 else 'i4'
+        calls.append(('fit-intx', c))
     return calls
 
 
@@ -272,18 +342,32 @@ def gen_trace(ctx):
         for _attempt in range(200):
             func = rng.choice(['legendre', 'chebyshev', 'poly'])
             ncoeff = rng.randint(1, 4)
+            if k % 4 == 0:
+                ncoeff = 3
+            if k % 3 == 0:
+                func = 'legendre'
             nt = rng.randint(1, 3)
             nx = rng.randint(max(ncoeff + 2, 5), 9)
             xpos = []
+            intpos = (k % 6 == 4)      # integer-typed positions (pixel numbers)
             for _ in range(nt):
-                start = C.dyadic(rng, 0, 3, 2)
+                start = float(rng.randint(0, 3)) if intpos else C.dyadic(rng, 0, 3, 2)
                 row = [start]
                 for _i in range(nx - 1):
-                    row.append(row[-1] + C.dyadic(rng, 0.5, 2, 2))
+                    row.append(row[-1] + (float(rng.randint(1, 2)) if intpos else C.dyadic(rng, 0.5, 2, 2)))
                 xpos.append(row)
             ypos = [[C.dyadic(rng, -4, 4, 5) for _ in range(nx)] for _ in range(nt)]
             c = {'f': 'trace', 'func': func, 'ncoeff': ncoeff, 'xpos': xpos, 'ypos': ypos,
                  'ivar': None, 'inmask': None, 'xmin': None, 'xmax': None, 'jump': None}
+            # keywords left to their defaults (func='legendre', ncoeff=3, maxiter=10) and explicit maxiter 0, 1, 3, 10
+            omit = []
+            if k % 4 == 0 and ncoeff == 3:
+                omit.append('ncoeff')
+            if k % 3 == 0 and func == 'legendre':
+                omit.append('func')
+            if omit:
+                c['omit'] = omit
+            c['maxiter'] = [None, 0, 1, None, 3, 10][k % 6]
             if rng.random() < 0.6:
                 c['ivar'] = [[(0.0 if rng.random() < 0.2 else C.dyadic(rng, 0.25, 4, 2)) for _ in range(nx)] for _ in range(nt)]
             if rng.random() < 0.4:
@@ -318,7 +402,11 @@ def gen_trace(ctx):
                     ok = False
                     break
             if ok:
-                tag = 'trace-' + ('jump' if c['jump'] else 'nojump')
+                tag = 'trace-' + ('jump' if c['jump'] else 'nojump') + ('-defaults' if c.get('omit') else '') + \
+                    ('' if c['maxiter'] is None else '-maxiter%d' % c['maxiter'])
+                if intpos:
+                    c['xdtype'] = 'i8' if k % 4 else 'i4'
+                    tag += '-intx'
                 if k % 5 == 2:
                     # integer-typed positions (pixel counts)
                     c['ypos'] = [[float(round(v)) for v in row] for row in c['ypos']]
@@ -371,7 +459,12 @@ def gen_eval(ctx):
         if rng.random() < 0.5:
             npt = rng.randint(1, 6)
             c['xpos'] = [[C.dyadic(rng, xmin, xmax, 4) for _ in range(npt)] for _ in range(nt)]
-        calls.append(('eval-' + ('grid' if c['xpos'] is None else 'xpos') + ('-jump' if c['jump'] else ''), c))
+            if k % 4 == 1:
+                # evaluation at integer-typed positions (pixel numbers)
+                c['xpos'] = [[float(rng.randint(math.ceil(xmin), math.floor(xmax))) for _ in range(npt)] for _ in range(nt)]
+                c['xdtype'] = 'i4' if k % 8 == 1 else 'i8'
+        calls.append(('eval-' + ('grid' if c['xpos'] is None else 'xpos') + ('-jump' if c['jump'] else '')
+                      + ('-intx' if c.get('xdtype') else ''), c))
     return calls
 
 
@@ -412,9 +505,11 @@ def fit_args_term(c):
 def case_term(c, r):
     f = c['f']
     if f == 'basis':
+        if r.get('err') == 'ValueError':
+            return '(CBasis %s %d%%nat %s None)' % (FTERM[c['func']], c['m'], qv(c['xs']))
         if 'ok' not in r:
             return None
-        return '(CBasis %s %d%%nat %s %s)' % (FTERM[c['func']], c['m'], qv(c['xs']), qm(r['ok']))
+        return '(CBasis %s %d%%nat %s (Some %s))' % (FTERM[c['func']], c['m'], qv(c['xs']), qm(r['ok']))
     if f == 'fit':
         if 'ok' in r:
             impl = '(Some (%s, %s))' % (qv(r['ok']['res']), qv(r['ok']['yfit']))
@@ -429,12 +524,14 @@ def case_term(c, r):
         o = r['ok']
         nt = len(c['xpos'])
         nx = len(c['xpos'][0])
-        ivar = c['ivar'] if c['ivar'] is not None else [[1.0] * nx for _ in range(nt)]
-        inmask = c['inmask'] if c['inmask'] is not None else [[True] * nx for _ in range(nt)]
-        return '(CTrace %s %d%%nat %s %s %s %s %s %s %s %s %s %s %s %s %s)' % (
-            FTERM[c['func']], c['ncoeff'], oq(c['xmin']), oq(c['xmax']), jump_term(c['jump']),
-            qm(c['xpos']), qm(c['ypos']), qm(ivar), bm(inmask),
-            qm(o['coeff']), qm(o['yfit']), qm(o['xy_x']), qm(o['xy_y']), qm(o['grid_x']), qm(o['grid_y']))
+        omit = c.get('omit', [])
+        return '(CTrace %s %s %s %s %s %s %s %s %s %s %s %s %s %s %s %s %s)' % (
+            'None' if 'func' in omit else '(Some %s)' % FTERM[c['func']],
+            'None' if 'ncoeff' in omit else '(Some %d%%nat)' % c['ncoeff'],
+            C.optlit(c.get('maxiter'), lambda v: '(%s)%%Z' % C.zlit(v)),
+            oq(c['xmin']), oq(c['xmax']), jump_term(c['jump']),
+            qm(c['xpos']), qm(c['ypos']), C.optlit(c['ivar'], qm), C.optlit(c['inmask'], bm),
+            qm(o['coeff']), qm(o['yfit']), qm(o['xy_x']), qm(o['xy_y']), qm(o['grid_x']), qm(o['grid_y']), bm(o['outmask']))
     if f == 'history':
         # the LAST evaluation of the history, judged as an evaluation of a trace set in the object's final state
         if 'ok' not in r:
@@ -494,7 +591,7 @@ def correspond(ctx, proof_ok=True):
         t = case_term(c, r)
         if t is None:
             # the implementation failed where a value is required
-            direct.append(('C13:%s:%s:impl=%s' % (c['f'], c.get('func'), r.get('err')),
+            direct.append(('C13:%s:%s:impl=%s' % (c['f'], sig_class(c), r.get('err')),
                            '%s raised/produced %s on an input inside the property domain' % (tag, r.get('err')),
                            {'kind': 'failing-input', 'call': public(c), 'impl_result': r}))
             continue
@@ -505,7 +602,7 @@ def correspond(ctx, proof_ok=True):
     oversize = [k for k, (_, t) in enumerate(terms) if len(t) > MAX_TERM]
     if oversize:
         raise RuntimeError('%d case terms exceed %d characters (generator bug): refusing to evaluate' % (len(oversize), MAX_TERM))
-    cc = C.CoqCases(ctx.work, HEADER, 'run_cases', shard=12, timeout=COQ_TIMEOUT)
+    cc = C.CoqCases(ctx.work, HEADER, 'run_cases', shard=30, timeout=COQ_TIMEOUT)
     light = [k for k, (_, t) in enumerate(terms) if t.startswith('(CBasis') or t.startswith('(CFit')]
     heavy = [k for k in range(len(terms)) if k not in set(light)]
     verdicts = [None] * len(terms)
@@ -540,7 +637,7 @@ def correspond(ctx, proof_ok=True):
                 ref = r['ref'][key]
                 scale = max([abs(v) for v in ref] + [1e-300])
                 if len(ref) != len(o[key]) or any(abs(a - b) > tol * scale for a, b in zip(o[key], ref)):
-                    direct.append(('C13:fit:dtype-class:%s' % key,
+                    direct.append(('C13:fit:%sdtype-class:%s' % ('intx:' if intx(c) else '', key),
                                    'func_fit with x dtype %s / y dtype %s: %s = %r differs from the float64 result %r of the same problem' % (
                                        c.get('xdtype', 'd'), c.get('ydtype', 'd'), key, o[key], ref),
                                    {'kind': 'failing-input', 'call': public(c), 'impl_result': r}))
@@ -556,19 +653,29 @@ def correspond(ctx, proof_ok=True):
                 elif e.get('grid_ok') is False:
                     why = 'the default grid does not span xmin..xmax (%r..%r) in unit steps' % (e['xmin'], e['xmax'])
                 if why:
-                    direct.append(('C13:history:%s' % ('history-dependent' if not e['independent'] else 'default-grid'),
+                    direct.append(('C13:history:%s' % ('nonfinite' if not e['finite'] else
+                                                       'history-dependent' if not e['independent'] else 'default-grid'),
                                    'evaluation at step %d of the history %s: %s' % (
                                        e['index'], [op['op'] for op in c['ops']], why),
                                    {'kind': 'failing-input', 'call': public(c), 'history': c['ops'], 'step': e['index'],
                                     'impl_result': {'ok': {'evals': [e]}}}))
                     break
     for ci, ((tag, c), r) in enumerate(zip(calls, results)):
+        if c['f'] == 'basis' and c.get('_f4'):
+            nd += 1
+            if 'ok' not in r:
+                continue     # (reported above: the implementation failed where a value is required)
+            want = [[float(basis_fr(c['func'], c['m'], x)[j]) for x in c['xs']] for j in range(c['m'])]
+            if any(abs(a - b) > 1e-4 for ra, rb in zip(r['ok'], want) for a, b in zip(ra, rb)):
+                direct.append(('C13:basis:float32', '%s on float32 abscissae %r differs from the exact values by more than 1e-4' % (
+                    c['func'], c['xs']), {'kind': 'failing-input', 'call': public(c), 'impl_result': r, 'exact': want}))
+    for ci, ((tag, c), r) in enumerate(zip(calls, results)):
         if c['f'] != 'fit':
             continue
         if 'ok' not in r:
             if r.get('err') != 'nonfinite':   # (non-finite output is already reported above)
                 nd += 1
-                direct.append(('C13:fit:%s:impl=%s' % (c['func'], r.get('err')),
+                direct.append(('C13:fit:%s:impl=%s' % (sig_class(c), r.get('err')),
                                'func_fit raised %s (%s) on a well-posed fitting problem' % (r.get('err'), r.get('msg', '')),
                                {'kind': 'failing-input', 'call': public(c), 'impl_result': r}))
             continue
@@ -579,7 +686,7 @@ def correspond(ctx, proof_ok=True):
             ans = c['ans'] if c['ans'] is not None else [0.0] * c['ncoeff']
             for k, free in enumerate(c['ia']):
                 if not free and res[k] != ans[k]:
-                    direct.append(('C13:fit:fixed-not-kept', 'coefficient %d declared fixed at %r came back as %r' % (k, ans[k], res[k]),
+                    direct.append(('C13:fit:%sfixed-not-kept' % ('intx:' if intx(c) else ''), 'coefficient %d declared fixed at %r came back as %r' % (k, ans[k], res[k]),
                                    {'kind': 'failing-input', 'call': public(c), 'impl_result': r, 'index': k}))
                     break
         if tag == 'fit-exact' and ngood >= c['ncoeff']:
@@ -599,14 +706,14 @@ def correspond(ctx, proof_ok=True):
             o = r['ok']
             nd += 1
             if o['xy_x'] != c['xpos'] or not all(close(a, b, 1e-9) for ra, rb in zip(o['xy_y'], o['yfit']) for a, b in zip(ra, rb)):
-                direct.append(('C13:trace:fit-eval-inconsistent', 'traceset2xy(xy2traceset(x, y), x) does not return the fitted values',
+                direct.append(('C13:trace:%sfit-eval-inconsistent' % ('intx:' if intx(c) else ''), 'traceset2xy(xy2traceset(x, y), x) does not return the fitted values',
                                {'kind': 'failing-input', 'call': public(c), 'impl_result': r}))
             gx = o['grid_x']
             want_nx = int(math.floor(o['xmax'] - o['xmin'] + 1))
             good_grid = len(gx) == len(c['xpos']) and all(
                 len(row) == want_nx and all(v == o['xmin'] + j for j, v in enumerate(row)) for row in gx)
             if not good_grid:
-                direct.append(('C13:trace:default-grid', 'default grid is not xmin, xmin+1, ... (floor(xmax-xmin+1) columns)',
+                direct.append(('C13:trace:%sdefault-grid' % ('intx:' if intx(c) else ''), 'default grid is not xmin, xmin+1, ... (floor(xmax-xmin+1) columns)',
                                {'kind': 'failing-input', 'call': public(c), 'impl_result': r}))
 
     dist = {}
@@ -631,7 +738,7 @@ def correspond(ctx, proof_ok=True):
     seen = set()
     for ci, t, v in bad:
         tag, c = calls[ci]
-        sig = 'C13:%s:%s:%s' % (c['f'], c.get('func'), 'property' if v & 2 else 'model')
+        sig = 'C13:%s:%s:%s' % (c['f'], sig_class(c), 'property' if v & 2 else 'model')
         if sig in seen:
             continue
         seen.add(sig)
